@@ -430,14 +430,17 @@ func (ma *ModuleAnalyzer) resolveAbsoluteImportWithProject(imp *ImportInfo, from
 		return ""
 	}
 
-	// Check cache first
-	if resolved, exists := ma.resolvedModules[moduleName]; exists {
+	// Build possible module path relative to the file's directory
+	currentDir := filepath.Dir(fromFile)
+
+	// Check cache first. The search below starts in the importing file's directory,
+	// so the result is only valid for imports made from that directory.
+	cacheKey := currentDir + string(filepath.ListSeparator) + moduleName
+	if resolved, exists := ma.resolvedModules[cacheKey]; exists {
 		return resolved
 	}
 
 	// First, try to resolve within the current project directory
-	// Build possible module path relative to the file's directory
-	currentDir := filepath.Dir(fromFile)
 
 	// Try to find the module in the same directory or project root
 	searchPaths := []string{
@@ -455,7 +458,7 @@ func (ma *ModuleAnalyzer) resolveAbsoluteImportWithProject(imp *ImportInfo, from
 			// Calculate the module name based on project structure
 			resolvedName := ma.filePathToModuleName(moduleFile)
 			if resolvedName != "" {
-				ma.resolvedModules[moduleName] = resolvedName
+				ma.resolvedModules[cacheKey] = resolvedName
 				return resolvedName
 			}
 		}
@@ -466,7 +469,7 @@ func (ma *ModuleAnalyzer) resolveAbsoluteImportWithProject(imp *ImportInfo, from
 			if resolvedName != "" {
 				// For __init__.py files, use the package name (without __init__)
 				resolvedName = strings.TrimSuffix(resolvedName, ".__init__")
-				ma.resolvedModules[moduleName] = resolvedName
+				ma.resolvedModules[cacheKey] = resolvedName
 				return resolvedName
 			}
 		}
